@@ -245,7 +245,14 @@ func (w *World) explore(fn *ssa.Function, workers int, maxPaths int) *HarnessRep
 					a.Path = r.Decisions
 					a.Harness = fn.Name()
 					if a.Result == "violated" {
-						if len(rep.Violations) < 20 {
+						// keep a few per assertion label (those with a counterexample file first come first)
+						nl := 0
+						for _, v := range rep.Violations {
+							if v.Label == a.Label {
+								nl++
+							}
+						}
+						if nl < 4 || (a.Cex != "" && nl < 8) {
 							rep.Violations = append(rep.Violations, a)
 						}
 					} else if a.Result == "unknown" {
